@@ -131,6 +131,9 @@ def run_program(program, requested, path, dbpath, faults):
     comp = lrun.compiled(text, requested)
   except lrun.mods().functors.FunctorError as e:
     raise ProvenEmpty(getattr(e, 'functor_name', None), str(getattr(e, 'message', e)))
+  except (RecursionError, MemoryError):
+    # interpreter resource limits are outside the property: discard and count
+    raise sqlworld.TooExpensive('compiler exhausted the interpreter recursion/memory limit')
   faults = [dict(f, file=dbpath) if f['kind'] == 'busy' else f for f in faults]
   world = sqlworld.World(faults)
   try:
@@ -323,7 +326,7 @@ def run_case_full(case, scratch):
       info['styles'] = {','.join(k): str(v) for k, v in styles.items()}
       vs.extend(v2)
   except sqlworld.TooExpensive:
-    info['discard'] = 'statement exceeded VM step budget'
+    info['discard'] = 'resource budget exceeded (VM steps / memory / recursion limit)'
     return [], info
   except ProvenEmpty as e:
     # A diagnostic, not an answer: legitimate iff the reference agrees that the
